@@ -492,9 +492,9 @@ func desugarGroups(s string) string {
 			d := 0
 			j := i
 			for ; j < len(s); j++ {
-				if s[j] == '(' {
+				if s[j] == '(' || s[j] == '[' {
 					d++
-				} else if s[j] == ')' {
+				} else if s[j] == ')' || s[j] == ']' {
 					d--
 					if d == 0 {
 						break
